@@ -34,14 +34,10 @@ structure T46GuardCore (c : Cfg) : Prop where
   gen : ∀ r e rest err g k, c.stack = .hApply r e rest err (.gen g) :: k → c.exn = none → e < c.st.evs.length
   own : ∀ r t k w, c.stack = .ptOwn r t :: k → c.exn = none → c.ret.yield = .sub w →
     t.parent = none ∧ t.e < c.st.evs.length
-  doneTask : ∀ r h e k w, c.stack = .invoke r h e :: k → c.exn = none → (c.st.handler h).kind = .waitDone w →
-    (c.st.wait w).flag = true →
-      (⟨(c.st.wait w).taskEvent, (c.st.wait w).task, some (c.st.wait w).parentGen⟩ : Task) ∈
-        (c.st.comp (c.st.rootOf (c.st.wait w).owner)).tasks
 
 theorem T46Guard.of_core {n0 : Nat} {c : Cfg} (hc : T46GuardCore c) (hw : W6CInv n0 c) : T46Guard c :=
   ⟨hc.tick, hc.root, hc.gen, hc.own,
-   fun r h e k w hs hx hk => ⟨hw.t46_started h w (Or.inl hk), hc.doneTask r h e k w hs hx hk⟩,
+   fun _ h _ _ w _ _ hk => hw.t46_started h w (Or.inl hk),
    fun _ h _ _ w _ _ hk => hw.t46_started h w (Or.inr hk)⟩
 
 /-- admissible sessions (`W6ReachW`) on which the core guard holds at every step taken -/
